@@ -18,6 +18,7 @@
    In -simulate mode the same module emits complete words with the spec's verdict; they are
    replayed into the real isValidCell (model -> code). *)
 EXTENDS Naturals, Integers, Sequences, FiniteSets, TLC
+CONSTANT Kinds
 
 VARIABLES
   t8,        \* history: the top 8 bits chosen (0..255)
@@ -25,7 +26,8 @@ VARIABLES
   fault,     \* history, emit mode only: positions at which an out-of-class digit is planted
   lane,      \* history, emit mode only: makes equally-shaped choices distinct so that simulation
              \* (uniform over distinct successors) draws the common case more often
-  kind,      \* "cell": the word is judged as a cell
+  kind,      \* "cell": the word is judged by isValidCell; "edge": by isValidDirectedEdge
+  dir1,      \* edge only: the reserved field (direction) is 1 (K axis)
   res, bc,   \* the two fields every later step depends on
   implTop, specTop,
   p,         \* next position to read (15 down to 1); 0 = word complete
@@ -37,9 +39,9 @@ VARIABLES
   specAll7,  \* every position > res read so far holds 7
   specLead   \* the digit of the lowest-numbered non-zero position <= res read so far (0 = none)
 
-vars == <<t8, digs, fault, lane, kind, res, bc, implTop, specTop, p, borrow, implAny7, implAll7, hiMod,
+vars == <<t8, digs, fault, lane, kind, dir1, res, bc, implTop, specTop, p, borrow, implAny7, implAll7, hiMod,
           specAny7, specAll7, specLead>>
-view == <<kind, res, bc, implTop, specTop, p, borrow, implAny7, implAll7, hiMod,
+view == <<kind, dir1, res, bc, implTop, specTop, p, borrow, implAny7, implAll7, hiMod,
           specAny7, specAll7, specLead>>
 
 PentagonBaseCells == {4, 14, 24, 38, 49, 58, 63, 72, 83, 97, 107, 117}
@@ -50,11 +52,18 @@ Bit(d, i) == (d \div (2 ^ i)) % 2
 
 Init ==
   /\ t8 \in 0..255
-  /\ kind = "cell"
+  /\ kind \in Kinds
   /\ res \in 0..15
   /\ bc \in 0..127
-  /\ implTop = (t8 = 8)                                         \* h >> 56 == 0b00001000
-  /\ specTop = (t8 \div 128 = 0 /\ (t8 \div 8) % 16 = 1 /\ t8 % 8 = 0)   \* high 0, mode 1, reserved 0
+  /\ dir1 = (kind = "edge" /\ t8 % 8 = 1)
+  /\ implTop = IF kind = "cell" THEN t8 = 8                     \* h >> 56 == 0b00001000
+               ELSE \* isValidDirectedEdge: direction 1..6, mode 2, then isValidCell(origin) where the origin is
+                    \* the edge with mode := 1 and reserved := 0 (its high bit is kept)
+                    /\ ~(t8 % 8 <= 0 \/ t8 % 8 >= 7)
+                    /\ (t8 \div 8) % 16 = 2
+                    /\ (t8 \div 128) * 128 + 8 = 8
+  /\ specTop = IF kind = "cell" THEN (t8 \div 128 = 0 /\ (t8 \div 8) % 16 = 1 /\ t8 % 8 = 0)   \* high 0, mode 1, reserved 0
+               ELSE (t8 \div 128 = 0 /\ (t8 \div 8) % 16 = 2 /\ t8 % 8 \in 1..6)
   /\ digs = <<>> /\ fault = {} /\ lane = 0
   /\ p = 15 /\ borrow = 0
   /\ implAny7 = FALSE /\ implAll7 = TRUE /\ hiMod = 3
@@ -83,13 +92,16 @@ Step(d) ==
         /\ specLead' = IF p <= res /\ d # 0 THEN d ELSE specLead
   /\ digs' = <<d>> \o digs
   /\ p' = p - 1
-  /\ UNCHANGED <<t8, fault, lane, kind, res, bc, implTop, specTop>>
+  /\ UNCHANGED <<t8, fault, lane, kind, dir1, res, bc, implTop, specTop>>
 
 Next == \E d \in 0..7 : Step(d)
 Spec == Init /\ [][Next]_vars
 
+\* _isBaseCellPentagon(bc) && leading non-zero digit == 0, as isPentagon computes it
+ImplIsPentagon == bc < 122 /\ PentArr[bc] /\ specLead = 0
 ImplValid ==
   /\ implTop
+  /\ ~(kind = "edge" /\ ImplIsPentagon /\ dir1)
   /\ ~(bc >= 122)
   /\ ~implAny7
   /\ implAll7
@@ -101,6 +113,7 @@ SpecValid ==
   /\ ~specAny7                                     \* digits 1..res are 0..6
   /\ specAll7                                      \* digits res+1..15 are 7
   /\ (bc \in PentagonBaseCells => specLead # 1)
+  /\ (kind = "edge" => ~(bc \in PentagonBaseCells /\ specLead = 0 /\ dir1))    \* direction 1 does not exist on a pentagon
 
 Agree == (p = 0) => (ImplValid = SpecValid)
 
@@ -109,7 +122,7 @@ TypeOK == /\ p \in 0..18 /\ borrow \in {0, 1} /\ hiMod \in 0..3 /\ specLead \in 
 
 \* ---- emit mode (tlc -simulate): near-valid words, with at most two planted faults --------
 InitE ==
-  /\ t8 = 8 /\ kind = "cell" /\ res \in 0..15 /\ bc = 0
+  /\ t8 = 8 /\ kind = "cell" /\ dir1 = FALSE /\ res \in 0..15 /\ bc = 0
   /\ implTop = TRUE /\ specTop = TRUE
   /\ digs = <<>> /\ fault = {} /\ lane = 0
   /\ p = 18 /\ borrow = 0
@@ -124,11 +137,11 @@ SetupTop ==
   /\ implTop' = (t8' = 8)
   /\ specTop' = (t8' \div 128 = 0 /\ (t8' \div 8) % 16 = 1 /\ t8' % 8 = 0)
   /\ bc' \in PentagonBaseCells \cup {0, 3, 5, 15, 23, 64, 90, 100, 119, 120, 121, 122, 127}
-  /\ UNCHANGED <<digs, fault, kind, res, borrow, implAny7, implAll7, hiMod, specAny7, specAll7, specLead>>
+  /\ UNCHANGED <<digs, fault, kind, dir1, res, borrow, implAny7, implAll7, hiMod, specAny7, specAll7, specLead>>
 SetupFault ==
   /\ p \in {17, 16} /\ p' = p - 1
   /\ \E f \in 0..40 : lane' = f /\ fault' = IF f = 0 \/ f > 15 THEN fault ELSE fault \cup {f}
-  /\ UNCHANGED <<t8, digs, kind, res, bc, implTop, specTop, borrow, implAny7, implAll7, hiMod,
+  /\ UNCHANGED <<t8, digs, kind, dir1, res, bc, implTop, specTop, borrow, implAny7, implAll7, hiMod,
                  specAny7, specAll7, specLead>>
 InClass(d) == IF p <= res THEN d \in 0..6 ELSE d = 7
 NextE == \/ SetupTop \/ SetupFault
